@@ -16,7 +16,6 @@ Executable contract (from the property statement, never from the code) -- see an
     everything else (offending and upper-case calls in one cell, unclosed '(', names like E_V / 1e / non-ASCII names, a dotted
     call whose last name is upper-case) has NO clause: such texts are skipped and not counted.
 """
-import datetime
 import itertools
 import multiprocessing
 import os
@@ -893,13 +892,6 @@ def sequence_sweep(tier, seed):
 
 
 # ------------------------------------------------------------------------------------------------ run / replay
-def _route(all_fails, name_by_check, default):
-    out = {}
-    for f in all_fails:
-        out.setdefault(name_by_check.get(f.get('check'), default), []).append(f)
-    return out
-
-
 def workbook_checks(tier, seed):
     t0 = time.time()
     pj = placement_jobs(tier, seed)
